@@ -72,6 +72,15 @@ func (v *JWTValidator) Validate(req *httpprot.Request) error {
 		token = authHdr[len(prefix):]
 	}
 
+	// jwt.Parse decodes the signature segment leniently (padding, ignored
+	// trailing bits), only its canonical encoding belongs to a valid token.
+	if i := strings.LastIndexByte(token, '.'); i >= 0 {
+		sig, e := jwt.DecodeSegment(token[i+1:])
+		if e != nil || jwt.EncodeSegment(sig) != token[i+1:] {
+			return fmt.Errorf("malformed token signature")
+		}
+	}
+
 	// jwt.Parse does everything including parsing and verification
 	_, e := jwt.Parse(token, func(token *jwt.Token) (interface{}, error) {
 		if alg := token.Method.Alg(); alg != v.spec.Algorithm {
